@@ -209,12 +209,7 @@ def gen_scipy_post(sc: ast.AST) -> str:
     a, b = post_segment(fn)
     seg = fn.body[a:b]
     c = Ex("solve_scipy post-processing")
-    out: list[str] = [
-        "/-- Python `abs`, `max(a, b)`, `min(a, b)` on numbers -/",
-        "def postAbs (a : Rat) : Rat := if a < 0 then -a else a",
-        "def postMax (a b : Rat) : Rat := if a < b then b else a",
-        "def postMin (a b : Rat) : Rat := if b < a then b else a",
-    ]
+    out: list[str] = []
     done: set[str] = set()
     # names of the enclosing function that the segment may read
     base = {"tol": ("tol", "OptRat"), "method": ("method", "Str"), "result.success": ("success", "Bool"),
@@ -363,6 +358,76 @@ def gen_scipy_post(sc: ast.AST) -> str:
     out += ["/-- keyword arguments of the final `Solution(...)` -/",
             "def solutionKwargsG : List (String × String) := ["
             + ", ".join(f"({json.dumps(k)}, {json.dumps(v)})" for k, v in kws) + "]"]
+    return "\n".join(out) + "\n"
+
+
+def fn_term(c: Ex, stmts: list[ast.stmt], env: dict, want: str) -> str:
+    """a function body of local assignments, if / elif / else chains and returns -> one Lean term of type `want`"""
+    if not stmts:
+        raise TranslateError(f"{c.where}: a path falls off the end of the function")
+    st, rest = stmts[0], stmts[1:]
+    if isinstance(st, ast.Expr) and isinstance(st.value, ast.Constant) and isinstance(st.value.value, str):
+        return fn_term(c, rest, env, want)
+    if isinstance(st, ast.Return) and st.value is not None:
+        t, ty = c.ex(st.value, env)
+        if ty != want:
+            raise TranslateError(f"{c.where}: returns {ty}, {want} expected: {_u(st)!r}")
+        return t
+    if isinstance(st, ast.Assign) and len(st.targets) == 1 and isinstance(st.targets[0], ast.Name):
+        t, ty = c.ex(st.value, env)
+        lty = {"Rat": "Rat", "Bool": "Bool", "Str": "String"}.get(ty)
+        if lty is None:
+            raise TranslateError(f"{c.where}: local of type {ty}")
+        inner = dict(env)
+        inner[st.targets[0].id] = (st.targets[0].id, ty)
+        return f"(let {st.targets[0].id} : {lty} := {t}; {fn_term(c, rest, inner, want)})"
+    if isinstance(st, ast.If):
+        orelse = st.orelse if st.orelse else rest
+        if st.orelse and rest:
+            raise TranslateError(f"{c.where}: statements after an if/else whose branches return")
+        return f"(if {c.cond(st.test, env)} then {fn_term(c, st.body, env, want)} else {fn_term(c, orelse, env, want)})"
+    raise TranslateError(f"{c.where}: statement {_u(st)[:70]!r}")
+
+
+def gen_constraint(cons: ast.AST) -> str:
+    """`Constraint.violation`, `is_satisfied`, the admissible senses of `__post_init__` and the text of `evaluate`"""
+    cls = next((n for n in ast.walk(cons) if isinstance(n, ast.ClassDef) and n.name == "Constraint"), None)
+    if cls is None:
+        raise TranslateError("class Constraint not found")
+    meth = {n.name: n for n in cls.body if isinstance(n, ast.FunctionDef)}
+    for nm in ("__post_init__", "evaluate", "violation", "is_satisfied"):
+        if nm not in meth:
+            raise TranslateError(f"Constraint.{nm} not found")
+    out = []
+    # violation
+    c = Ex("Constraint.violation")
+    v = meth["violation"]
+    env = {"self.evaluate(point)": ("value", "Rat"), "self.sense": ("sense", "Str")}
+    out += ["/-- `Constraint.violation(point)` as a function of `self.sense` and of `self.evaluate(point)` -/",
+            "def violationG (sense : String) (value : Rat) : Rat :=",
+            "  " + fn_term(c, v.body, env, "Rat")]
+    # is_satisfied
+    c = Ex("Constraint.is_satisfied")
+    f = meth["is_satisfied"]
+    args = [a.arg for a in f.args.args]
+    if args != ["self", "point", "tol"] or len(f.args.defaults) != 1 or not isinstance(f.args.defaults[0], ast.Constant):
+        raise TranslateError(f"Constraint.is_satisfied: signature {args}")
+    env = {"self.violation(point)": ("violation", "Rat"), "tol": ("tol", "Rat")}
+    out += ["/-- `Constraint.is_satisfied(point, tol)` as a function of `self.violation(point)` -/",
+            "def isSatisfiedG (violation tol : Rat) : Bool :=",
+            "  " + fn_term(c, f.body, env, "Bool"),
+            f"def isSatisfiedDefaultTolG : Rat := {lean_rat(f.args.defaults[0].value)}"]
+    # __post_init__: `if self.sense not in (...): raise`
+    b = [st for st in meth["__post_init__"].body if not (isinstance(st, ast.Expr) and isinstance(st.value, ast.Constant))]
+    if not (len(b) == 1 and isinstance(b[0], ast.If) and not b[0].orelse and isinstance(b[0].test, ast.Compare)
+            and _u(b[0].test.left) == "self.sense" and isinstance(b[0].test.ops[0], ast.NotIn)
+            and len(b[0].body) == 1 and isinstance(b[0].body[0], ast.Raise)):
+        raise TranslateError(f"Constraint.__post_init__: {[_u(x)[:60] for x in b]}")
+    senses = list(ast.literal_eval(b[0].test.comparators[0]))
+    out += ["/-- the senses `__post_init__` accepts -/",
+            "def constraintSensesG : List String := [" + ", ".join(json.dumps(x) for x in senses) + "]"]
+    ev = [st for st in meth["evaluate"].body if not (isinstance(st, ast.Expr) and isinstance(st.value, ast.Constant))]
+    out += ["def constraintEvaluateTextG : String := " + json.dumps("; ".join(_u(x) for x in ev))]
     return "\n".join(out) + "\n"
 
 
